@@ -144,7 +144,11 @@ func checkCase(c Case) error {
 	var signers []*x509.Certificate
 	reparsed := false
 	for i, st := range c.Steps {
-		id := ids[st.Ident%len(ids)]
+		id := ids[st.Ident%(len(ids)-1)]
+		if st.Ident == 8 {
+			id = extra // the case's generated identity
+			hx.Class("signer_is_the_generated_identity")
+		}
 		if id.Cert.Issuer.String() != id.Cert.Subject.String() {
 			hx.Class("signer_certificate_issued_by_a_ca")
 		}
